@@ -501,7 +501,23 @@ def call_ext(ex, path, args, kw):
         if path.startswith('matplotlib') or path.startswith('tqdm'):
             raise Unsupported(f'plotting / progress call {path} (not under contract)')
         raise Unsupported(f'external function {path} has no assumed contract')
+    if kw:
+        # a keyword the assumed contract does not name is never silently dropped (it may change dtype, axis, masking ...)
+        named = _NAMED_KW.get(f)
+        if named is None:
+            import inspect
+            named = _NAMED_KW[f] = {p.name for p in inspect.signature(f).parameters.values() if p.kind in (p.POSITIONAL_OR_KEYWORD, p.KEYWORD_ONLY)}
+        extra = [k for k in kw if k not in named]
+        ign = _IGNORABLE_KW.get(path, ())
+        if extra and ign != '*' and not all(k in ign for k in extra):
+            raise Unsupported(f'{path}: keyword argument(s) {sorted(k for k in extra if k not in ign)} outside the assumed contract')
     return f(ex, *args, **kw)
+
+
+_NAMED_KW = {}
+# keywords that cannot influence the values under contract
+_IGNORABLE_KW = {'warnings.warn': ('category', 'stacklevel'), 'warnings.filterwarnings': '*', 'warnings.simplefilter': '*', 'numpy.set_printoptions': '*',
+                 'numpy.vectorize': ('otypes', 'doc', 'cache')}
 
 
 def ext_value(ex, path):
@@ -844,10 +860,38 @@ def np_round(ex, x, decimals=0, **kw):
     return f(x)
 
 
+_INT_BITS = {'uint8': (8, False), 'int8': (8, True), 'uint16': (16, False), 'int16': (16, True), 'uint32': (32, False), 'int32': (32, True)}
+
+
+def _wrap_int(ex, v, bits, signed):
+    """two's-complement wrap-around of a mathematical integer into a fixed-width numpy integer"""
+    m = 2 ** bits
+    if signed:
+        return s_sub(s_mod(s_add(v, m // 2), m, ex), m // 2)
+    return s_mod(v, m, ex)
+
+
 @ext('numpy.sum')
-def np_sum(ex, a, axis=None, **kw):
+def np_sum(ex, a, axis=None, dtype=None, **kw):
     from . import reduce
-    return reduce.reduce_(ex, 'sum', a, axis)
+    r = reduce.reduce_(ex, 'sum', a, axis)
+    if dtype is not None:
+        d = as_dtype(dtype)
+        if d is None:
+            raise Unsupported(f'sum(dtype={dtype!r})')
+        if d.name in _INT_BITS:
+            # accumulation in a small integer type wraps around silently
+            bits, signed = _INT_BITS[d.name]
+            if isinstance(r, Arr):
+                e0 = r.elem
+                r = Arr(list(r.shape), lambda idx: _wrap_int(ex, e0(idx), bits, signed), 'int', np_dtype=d.name)
+            else:
+                r = _wrap_int(ex, r, bits, signed)
+        elif d.kind == 'float':
+            r = arrays.elementwise(ex, lambda v: s_cast(v, 'float'), [r], 'float') if isinstance(r, Arr) else s_cast(r, 'float')
+        elif d.kind not in ('int',):
+            raise Unsupported(f'sum(dtype={d.name})')
+    return r
 
 
 @ext('numpy.mean')
